@@ -47,6 +47,12 @@ EXC = {c.__name__: c for c in (EA, EAB, EABC, EX, EMI, ETY, KeyError, LookupErro
                                ValueError, IndexError, AttributeError,
                                TypeError, RuntimeError, ZeroDivisionError,
                                KeyboardInterrupt, Exception)}
+try:                                    # names dtml-raise resolves itself
+    from zExceptions import BadRequest, NotFound
+    EXC['NotFound'] = NotFound
+    EXC['BadRequest'] = BadRequest
+except ImportError:                     # pragma: no cover
+    pass
 EXC['EAB~'] = EAB_X
 EXC['EX~'] = EX_A
 
